@@ -340,7 +340,40 @@ def resync (m : Mon) (out : String) : Mon :=
   { m with qlen := digestQlens out, slots := sl,
            fwds := m.fwds.filter fun f => (sl.find? (·.1 = f.srv)).any fun s => s.2.any (·.1 = f.slot) }
 
-def monOp1 (m : Mon) (op : String) (args : List String) (impl : List String) (trToks : List String := []) : Mon × String :=
+/-- what is judged of the packets that leave client `k`'s reply queue (through `pop`, or through its real writer thread) -/
+def popJudge (m : Mon) (k : Nat) (cc : World.CliConf) (outs : List Bytes) : String :=
+  let mine := (m.queue.filter (·.1 = k)).map (·.2)
+  let paired : List (Bytes × Option QEnt) := if mine.length = outs.length then outs.zip (mine.map some) else outs.map (·, none)
+  let verdict := paired.foldl (fun v (b, del) =>
+    if v ≠ "ok" then v else
+    let cands := m.recv.filter fun (j, rq) => j = k && idOf rq == idOf b
+    if cands.isEmpty then "bad C02:reply-with-identifier-the-client-never-used"
+    -- valid for (at least) one of the requests this client sent with that identifier
+    else if !(cands.any fun (_, rq) => replyOk H cc.secret (authOf rq) b) then "bad C06:reply-malformed-or-not-authenticated-for-this-client"
+    else if (codeOf b = 42 || codeOf b = 45) && !((attrsOf b).any fun (t, v) => t = 101 && v == beEnc 4 406) then "bad C05:nak-without-error-cause-406"
+    else
+      match del with
+      | none => "ok"
+      | some (.loc rq replay tr) =>
+        if replay then "ok"
+        -- C06: a reply the proxy makes itself echoes the request's Proxy-State attributes, all of them, in order
+        else if !rwTouches cc.rwIn 33 && (attrsOf b).filter (·.1 = 33) != (attrsOf rq).filter (·.1 = 33) then
+          "bad C06:local-reply-does-not-echo-the-requests-proxy-states-in-order"
+        else localVerdict m cc rq b tr
+      | some (.del d) =>
+        (match srvConfOf m d.srv with
+         | none => "ok"
+         | some sc =>
+           if idOf b != d.id then "bad C02:delivered-reply-does-not-carry-the-clients-identifier" else
+           let v1 := hiddenVerdict sc cc d b
+           if v1 ≠ "ok" then v1 else
+           let v2 := userNameVerdict sc cc d b
+           if v2 ≠ "ok" then v2 else
+           if ttlSkips m.cfg.opts.ttlType [sc.rwIn, cc.rwOut] then "ok"
+           else ttlVerdict m.cfg.opts.ttlType (World.effAddTtl m.cfg.opts cc.addttl) d.rep b "reply")) "ok"
+  verdict
+
+def monOp0 (m : Mon) (op : String) (args : List String) (impl : List String) (trToks : List String := []) : Mon × String :=
   let out := " ".intercalate impl
   if impl.any (·.startsWith "crash:") || impl == ["skipped"] then (m, "bad sanitizer-or-crash") else
   match op, args with
@@ -504,35 +537,7 @@ def monOp1 (m : Mon) (op : String) (args : List String) (impl : List String) (tr
         let outs := (headToks out).filterMap fun t => match t.splitOn ":" with
           | ["out", h] => ofHex h
           | _ => none
-        let mine := (m.queue.filter (·.1 = k)).map (·.2)
-        let paired : List (Bytes × Option QEnt) := if mine.length = outs.length then outs.zip (mine.map some) else outs.map (·, none)
-        let verdict := paired.foldl (fun v (b, del) =>
-          if v ≠ "ok" then v else
-          let cands := m.recv.filter fun (j, rq) => j = k && idOf rq == idOf b
-          if cands.isEmpty then "bad C02:reply-with-identifier-the-client-never-used"
-          -- valid for (at least) one of the requests this client sent with that identifier
-          else if !(cands.any fun (_, rq) => replyOk H cc.secret (authOf rq) b) then "bad C06:reply-malformed-or-not-authenticated-for-this-client"
-          else if (codeOf b = 42 || codeOf b = 45) && !((attrsOf b).any fun (t, v) => t = 101 && v == beEnc 4 406) then "bad C05:nak-without-error-cause-406"
-          else
-            match del with
-            | none => "ok"
-            | some (.loc rq replay tr) =>
-              if replay then "ok"
-              -- C06: a reply the proxy makes itself echoes the request's Proxy-State attributes, all of them, in order
-              else if !rwTouches cc.rwIn 33 && (attrsOf b).filter (·.1 = 33) != (attrsOf rq).filter (·.1 = 33) then
-                "bad C06:local-reply-does-not-echo-the-requests-proxy-states-in-order"
-              else localVerdict m cc rq b tr
-            | some (.del d) =>
-              (match srvConfOf m d.srv with
-               | none => "ok"
-               | some sc =>
-                 if idOf b != d.id then "bad C02:delivered-reply-does-not-carry-the-clients-identifier" else
-                 let v1 := hiddenVerdict sc cc d b
-                 if v1 ≠ "ok" then v1 else
-                 let v2 := userNameVerdict sc cc d b
-                 if v2 ≠ "ok" then v2 else
-                 if ttlSkips m.cfg.opts.ttlType [sc.rwIn, cc.rwOut] then "ok"
-                 else ttlVerdict m.cfg.opts.ttlType (World.effAddTtl m.cfg.opts cc.addttl) d.rep b "reply")) "ok"
+        let verdict := popJudge m k cc outs
         (resync { m with queue := m.queue.filter (·.1 ≠ k) } out, verdict)
     | none => (m, "bad-op")
   | "rewrite", name :: attrs =>
@@ -641,7 +646,48 @@ def monOp1 (m : Mon) (op : String) (args : List String) (impl : List String) (tr
     | none => (m, "bad-op")
   | _, _ => (m, "bad-op")
 
-def refOps : List String := ["cfg", "client", "rq", "reply", "writer", "tick", "reset", "srvstate", "pop", "rmclient", "udplisten", "udpsend", "idle"]
+/-- packets the real writer threads sent during an op: `wout:<client>:<hex>` -/
+def woutsOf (out : String) : List (Nat × Bytes) :=
+  (headToks out).filterMap fun t => match t.splitOn ":" with
+    | ["wout", k, h] => (match k.toNat?, ofHex h with | some k, some b => some (k, b) | _, _ => none)
+    | _ => none
+
+/-- the hand-off to the writer threads (C02): whatever a writer sent while an op ran left the queue BEFORE the op's own
+    reply was queued; after a writer was given the processor nothing may be left on its queue -/
+def monOp1 (m : Mon) (op : String) (args : List String) (impl : List String) (trToks : List String := []) : Mon × String :=
+  let out := " ".intercalate impl
+  if impl.any (·.startsWith "crash:") || impl == ["skipped"] then monOp0 m op args impl trToks else
+  let wouts := woutsOf out
+  let judge (m : Mon) (k : Nat) : Mon × String :=
+    match cliConfOf m k with
+    | none => (m, "bad C02:writer-sent-for-an-unknown-client")
+    | some cc =>
+      let v := popJudge m k cc ((wouts.filter (·.1 = k)).map (·.2))
+      ({ m with queue := m.queue.filter (·.1 ≠ k), qlen := m.qlen.set k 0 }, v)
+  match op, args with
+  | "wrpre", _ => (m, "ok")
+  | "wrstart", [k] =>
+    match k.toNat? with
+    | some k => let (m, v) := judge m k; (resync m out, v)
+    | none => (m, "bad-op")
+  | "wrrun", [k] =>
+    match k.toNat? with
+    | some k =>
+      let (m, v) := judge m k
+      let left := (digestQlens out).getD k 0
+      (resync m out, if v ≠ "ok" then v
+                     else if wouts.any (·.1 ≠ k) then "bad C02:another-clients-writer-sent"
+                     else if left ≠ 0 then "bad C02:accepted-reply-left-on-the-queue-though-its-writer-was-given-the-processor"
+                     else "ok")
+    | none => (m, "bad-op")
+  | _, _ =>
+    if wouts.isEmpty || !(op = "rq" || op = "reply") then monOp0 m op args impl trToks else
+    let ks := (wouts.map (·.1)).eraseDups
+    let (m, v) := ks.foldl (fun (m, v) k => let (m', v') := judge m k; (m', if v ≠ "ok" then v else v')) (m, "ok")
+    let (m, v') := monOp0 m op args impl trToks
+    (m, if v ≠ "ok" then v else v')
+
+def refOps : List String := ["cfg", "client", "rq", "reply", "writer", "tick", "reset", "srvstate", "pop", "rmclient", "udplisten", "udpsend", "idle", "wrstart", "wrrun"]
 
 def monOp2 (m : Mon) (op : String) (args : List String) (impl : List String) (trToks : List String := []) : Mon × String :=
   let (m', v) := monOp1 m op args impl trToks
